@@ -13,6 +13,9 @@ thread_local! { static GENERIC: std::cell::Cell<bool> = std::cell::Cell::new(fal
 /// header field 3 of a case line: the trait has a type parameter `T: Copy + 'static`, written wherever the grammar says leaf 2 (u32)
 pub fn set_generic(g: bool) { GENERIC.with(|c| c.set(g)); }
 fn generic() -> bool { GENERIC.with(|c| c.get()) }
+thread_local! { static ASSOC: std::cell::Cell<bool> = std::cell::Cell::new(false); }
+/// header field 4 of a case line: the trait also declares an (unwrapped) associated type `type Tail;` — AFTER its methods
+pub fn set_assoc(a: bool) { ASSOC.with(|c| c.set(a)); }
 fn leaf(l: i64) -> &'static str { let i = (l as usize) % LEAVES.len(); if i == 2 && generic() { "T" } else { LEAVES[i] } }
 
 pub fn arg_ty(shape: i64, l: i64) -> String {
@@ -96,6 +99,7 @@ pub fn render_trait(name: &str, trait_int: i64, rows: &[Vec<i64>]) -> String {
         let ext = if r[0] & 64 != 0 { "extern \"C\" " } else { "" };
         s.push_str(&format!("    {}fn {}{}({}{}){}{}{}\n", ext, mname(k, r), if lt { "<'a>" } else { "" }, recv, args, ret_ty(r[2], r[3]), if sized { " where Self: Sized" } else { "" }, if has_default { " { loop {} }" } else { ";" }));
     }
+    if ASSOC.with(|c| c.get()) { s.push_str("    type Tail;\n"); }
     s.push_str("}\n");
     s
 }
@@ -366,7 +370,7 @@ pub fn run_ir() {
         let hdr: Vec<i64> = hd.split_whitespace().map(|t| t.parse().unwrap()).collect();
         let rows: Vec<Vec<i64>> = body.split(';').map(|r| r.split_whitespace().map(|t| t.parse().unwrap()).collect::<Vec<i64>>()).filter(|r| !r.is_empty()).collect();
         let trait_int = hdr.get(1).copied().unwrap_or(0);
-        set_generic(hdr.get(2).copied().unwrap_or(0) != 0);
+        set_generic(hdr.get(2).copied().unwrap_or(0) != 0); set_assoc(hdr.get(3).copied().unwrap_or(0) != 0);
         let src = render_trait("Tr", trait_int, &rows);
         let out = std::panic::catch_unwind(|| {
             let tr: ItemTrait = { let f = syn::parse_file(&src).expect("rendered trait parses"); match f.items.into_iter().next().unwrap() { Item::Trait(mut t) => { t.attrs.retain(|a| !a.path.is_ident("cglue_trait")); t } _ => unreachable!() } };
@@ -396,7 +400,7 @@ pub fn run_fwd() {
         let (hd, body) = match line.find('|') { Some(i) => (&line[..i], &line[i + 1..]), None => (&line[..], "") };
         let hdr: Vec<i64> = hd.split_whitespace().map(|t| t.parse().unwrap()).collect();
         let rows: Vec<Vec<i64>> = body.split(';').map(|r| r.split_whitespace().map(|t| t.parse().unwrap()).collect::<Vec<i64>>()).filter(|r| !r.is_empty()).collect();
-        set_generic(hdr.get(2).copied().unwrap_or(0) != 0);
+        set_generic(hdr.get(2).copied().unwrap_or(0) != 0); set_assoc(hdr.get(3).copied().unwrap_or(0) != 0);
         let src = render_trait("Tr", hdr.get(1).copied().unwrap_or(0), &rows);
         let out = std::panic::catch_unwind(|| {
             let tr: ItemTrait = { let f = syn::parse_file(&src).expect("rendered trait parses"); match f.items.into_iter().next().unwrap() { Item::Trait(mut t) => { t.attrs.retain(|a| !a.path.is_ident("cglue_trait")); t } _ => unreachable!() } };
@@ -448,7 +452,7 @@ pub fn run_render() {
         let hdr: Vec<i64> = hd.split_whitespace().map(|t| t.parse().unwrap()).collect();
         let rows: Vec<Vec<i64>> = body.split(';').map(|r| r.split_whitespace().map(|t| t.parse().unwrap()).collect::<Vec<i64>>()).filter(|r| !r.is_empty()).collect();
         println!("// @@TRAIT {}", k);
-        set_generic(hdr.get(2).copied().unwrap_or(0) != 0);
+        set_generic(hdr.get(2).copied().unwrap_or(0) != 0); set_assoc(hdr.get(3).copied().unwrap_or(0) != 0);
         print!("{}", render_trait(&format!("T{}", k), hdr.get(1).copied().unwrap_or(0), &rows));
     }
 }
